@@ -8,6 +8,7 @@ import (
 	"context"
 	"fmt"
 	"io"
+	"os"
 
 	"github.com/cloudwego/eino/compose"
 	"github.com/cloudwego/eino/schema"
@@ -88,13 +89,25 @@ func toStream[O any](chunks []any, r *mon.Rand) (*schema.StreamReader[O], error)
 	}
 }
 
+var typedTrace = os.Getenv("C04_TYPED_TRACE") != ""
+
 func mkLambda[I, O any](n *tnode, env *tenv) *compose.Lambda {
 	run := func(in I) (O, error) {
+		if typedTrace {
+			fmt.Printf("TRACE %s runs on %s\n", n.Key, canon(any(in)))
+		}
 		return as[O](n.body(any(in)))
 	}
 	emit := func(o O) (*schema.StreamReader[O], error) {
 		r := mon.NewRand(n.Seed)
-		return toStream[O](splitVal(any(o), n.Out, r, env.atomic), r)
+		chunks := splitVal(any(o), n.Out, r, env.atomic)
+		if typedTrace {
+			fmt.Printf("TRACE %s emits %d chunk(s): %s\n", n.Key, len(chunks), canon(map[string]any{"chunks": fmt.Sprint(len(chunks))}))
+			for _, c := range chunks {
+				fmt.Printf("TRACE   %s\n", canon(c))
+			}
+		}
+		return toStream[O](chunks, r)
 	}
 	var (
 		inv compose.Invoke[I, O, topt]
